@@ -275,6 +275,14 @@ impl MissingFieldLocationGuard {
         Self { prev }
     }
 
+    /// Start of a new top-level call: it inherits no fallback from a call it is nested in
+    /// (a parse started inside a user `Deserialize` impl); the enclosing call's fallback is
+    /// put back when the guard is dropped.
+    pub(crate) fn cleared() -> Self {
+        let prev = MISSING_FIELD_FALLBACK.with(|c| c.replace(None));
+        Self { prev }
+    }
+
     /// Update the fallback location in place, reusing the existing guard's restore point.
     pub(crate) fn replace_location(&mut self, location: Location) {
         MISSING_FIELD_FALLBACK.with(|c| c.set(Some(location)));
